@@ -32,6 +32,10 @@ pub struct ProbeSpec {
     /// share only: from inside a handler, attach another probe to the same output:
     /// (trigger: 0 = in the greeting, 1 = in the k-th datum, 2 = in the terminal; k; probe index)
     pub attach: Option<(u8, usize, usize)>,
+    /// from inside a handler (same trigger encoding as `attach`), make ANOTHER probe of the same
+    /// output act on its own talkback: (trigger, k, probe index, what it does) - two consumers that
+    /// know of each other (one's completion makes the other leave, one's datum makes the other pull)
+    pub poke: Option<(u8, usize, usize, React)>,
     /// the sink may send Pulls after it received the end or after it disposed (from_iter / C15 only)
     pub late_pulls: bool,
     /// the sink does not keep the talkback it is greeted with (it can then never act; conformant)
@@ -40,10 +44,10 @@ pub struct ProbeSpec {
 
 impl ProbeSpec {
     pub fn passive() -> Self {
-        ProbeSpec { policy: vec![], rest: React::Nothing, pull_cap: 1000, attach: None, late_pulls: false, drop_talkback: false }
+        ProbeSpec { policy: vec![], rest: React::Nothing, pull_cap: 1000, attach: None, poke: None, late_pulls: false, drop_talkback: false }
     }
     pub fn puller() -> Self {
-        ProbeSpec { policy: vec![], rest: React::Pull, pull_cap: 1000, attach: None, late_pulls: false, drop_talkback: false }
+        ProbeSpec { policy: vec![], rest: React::Pull, pull_cap: 1000, attach: None, poke: None, late_pulls: false, drop_talkback: false }
     }
 }
 
@@ -110,17 +114,9 @@ impl<T: Repr + Send + Sync + 'static> Probe<T> {
         }
         // upstream subscriptions made on behalf of this subscription belong to it, also when it is
         // made from inside a handler of another subscription
-        let prev = {
-            let mut g = self.world.lock();
-            let p = g.owner;
-            g.owner = self.idx as i32;
-            p
-        };
-        {
-            let _f = self.world.enter(self.edge, Dir::Up, Kind::Handshake, Val::none(), -1);
-            source(Message::Handshake(self.sink()));
-        }
-        self.world.lock().owner = prev;
+        let _o = self.world.owner_scope(self.idx as i32);
+        let _f = self.world.enter(self.edge, Dir::Up, Kind::Handshake, Val::none(), -1);
+        source(Message::Handshake(self.sink()));
     }
 
     fn on_message(self: &Arc<Self>, message: Message<T, Never>) {
@@ -178,6 +174,7 @@ impl<T: Repr + Send + Sync + 'static> Probe<T> {
 
     /// Perform an action if (and only if) a conformant sink may perform it now.
     pub fn act(self: &Arc<Self>, r: React) -> bool {
+        let _o = self.world.owner_scope(self.idx as i32);
         if r == React::LatePull {
             let e = self.world.edge(self.edge);
             let tb = self.talkback.lock().unwrap().clone();
